@@ -124,3 +124,10 @@ claim(
     "Trusted: the first-principles formulas in acnverif/props/c18.py; constraint currents compared by magnitude (flag semantics are pinned by the repository's own test, DESIGN.md 5).",
     "DESIGN.md 3/C18",
 )
+claim(
+    "C19",
+    "Hypothesis-generated StochasticNetwork histories with ALL station choices generated (random.choice patched, part of the shrinkable input); occupancy / queue snapshots at two points of every period compared with a reference model replayed in event_history order; counters and end state; seed-reproducibility sub-check with the real RNG",
+    "Exploration: 500 + 60 (quick) / 40 000 + 3 000 (thorough) generated histories (1-4 stations, 2-14 heavily overlapping sessions, declared station hints, early_departure on/off, uncontrolled / greedy / always-max schedulers). In every period every arrived EV is in exactly one place, no EV waits while a station is free, queue admissions are FIFO (also on early departure of satisfied EVs), snapshots after the events and after the charging update equal the model, never_charged / swaps / early_unplug equal the model's counts, every session is gone at the end; two runs under one random.seed are identical.",
+    "Trusted: the occupancy/queue model in acnverif/props/c19.py; satisfaction judged by the recorded rate ledger with a 1e-6 kWh guard around the 1e-3 threshold.",
+    "DESIGN.md 3/C19",
+)
